@@ -602,7 +602,7 @@ pub fn check(ctx: &mut Ctx) {
 	ctx.rule = "fault enumeration: each fault kind {send error, receive error, peer gone, 8 non-JSON texts, 8 JSON-but-not-JSON-RPC texts, responses to nobody (ids incl. null, 2^63, 2^64-1), empty array, junk arrays, one-element arrays with ids 0/2^63/2^64-1/2^64-2/\"abc\", a 10^5-element array} \
 		a failing unsubscribe write (dropped stream), long non-ASCII junk} injected at EVERY position of a fixed 8-operation client history (calls/subscribes/batches answered or pending) x {close() stalls or not} x {send stalls before failing or not} x id kind, with operations issued inside the gate window and after it; plus generated histories/faults incl. arbitrary and mutated bytes. \
 		Oracle: no task panics; nothing completing inside the window carries the 'reason could not be found' placeholder; after release every outstanding and later operation is complete with RestartNeeded(cause) naming the injected cause, all callers and on_disconnect() see the same cause, streams ended, is_connected()==false, results obtained before the fault are kept. \
-		Non-trivial = >= 1 operation pending at the fault or issued inside a gate window; distinct by case value."
+		Non-trivial = >= 1 operation pending at the fault or issued inside a gate window; distinct by case value. Also: failing ping write (ping-enabled client), batch-shaped replies with ids far apart, subscribe_to_method among the operations, a second failure while close() hangs; while only close() is outstanding the client already reports disconnected and later operations fail at once with the first cause."
 		.into();
 	ctx.assumptions = vec![
 		"'within the request timeout' is checked as 'nothing pending at quiescence' (paused clock); the 60 s real-time timeout never fires in a run".into(),
